@@ -31,6 +31,24 @@ def register(op):
         cf = c.canonical_form
         return [list(cf[0]), list(cf[1])]
 
+    def gen_step(c, gens, o):
+        """suspended generators of the object inside a history: ["gen_open", slot, "rotate"|"rotate_pt", t|None] creates one
+        (nothing runs before the first step), ["gen_next", slot, k] resumes it up to k times.  What a generator that was
+        suspended across an assignment of `turns` yields is not specified; it is consumed and dropped."""
+        if o[0] == "gen_open":
+            f = c.rotate if o[2] == "rotate" else c.rotate_pt
+            try:
+                gens[o[1]] = f() if o[3] is None else f(o[3])
+            except Exception:
+                gens.pop(o[1], None)
+        else:
+            g = gens.get(o[1])
+            for _ in range(o[2] if g is not None else 0):
+                try:
+                    next(g)
+                except Exception:
+                    break
+
     @op("c02_identifiers")
     def _(a):
         seq, struct = a
@@ -364,16 +382,33 @@ def register(op):
                 return "<" + type(e).__name__ + ">"
             return None
         bad = None
+        gens, assigned = {}, False
         for o in ops:
             k = o[0]
+            if k in ("gen_open", "gen_next"):
+                gen_step(c, gens, o)
+                continue
             if k == "set_turns":
                 try:
                     c.turns = o[1]
+                    assigned = True
                 except Exception as e:
                     bad = f"turns = {o[1]} raised {type(e).__name__}"
                     break
                 continue
             if k in ("turns", "sequence", "structure", "canonical_form"):
+                if assigned and gens:
+                    # after an assignment the representation is the turns-th rotation of the canonical form, whatever
+                    # generators of the object were suspended or resumed around the assignment
+                    from dsdobjects import complex_utils as cu_
+                    cf_ = c.canonical_form
+                    x_, y_ = [str(e_) for e_ in cf_[0]], list(cf_[1])
+                    for _ in range(c.turns):
+                        x_, y_ = cu_.rotate_complex_once(x_, y_)
+                    if [names(c.sequence), list(c.structure)] != [list(x_), list(y_)]:
+                        bad = (f"turns = {c.turns}: sequence/structure {names(c.sequence)!r} {''.join(c.structure)!r} is not rotation "
+                               f"{c.turns} of the canonical form ({list(x_)!r} {''.join(y_)!r})")
+                        break
                 continue
             if k == "split":            # consuming split() must leave every view of the object as it was
                 try:
@@ -406,6 +441,7 @@ def register(op):
             if got != want:
                 bad = f"{k}{tuple(arg) if isinstance(arg, list) else ''} = {got!r}, a fresh complex with the same sequence/structure gives {want!r}"
                 break
+        gens.clear()
         del c
         clear_singletons(Twin)
         fresh()
@@ -418,8 +454,12 @@ def register(op):
         c = bc.ComplexS(doms(seq), list(struct), name="V")
         ident, canon = id(c), ckey(c)
         out = []
+        gens = {}
         for o in ops:
             k = o[0]
+            if k in ("gen_open", "gen_next"):       # suspended generators: no observation of their own
+                gen_step(c, gens, o)
+                continue
             try:
                 if k == "set_turns":
                     c.turns = o[1]; v = None
@@ -448,6 +488,7 @@ def register(op):
                 from valfmt import Err
                 v = Err("IdentityChanged")
             out.append(v)
+        gens.clear()
         del c
         fresh()
         return out
